@@ -463,6 +463,22 @@ def check_problems(repo, late=()):
     return sorted(bad)
 
 
+def stored_twice(repo):
+    """record kinds of which the repository's own packs hold some key more than once (a transfer that
+    re-sends what the target already has): physical index entries minus distinct keys"""
+    repo = _real(repo)
+    out = []
+    with repo.lock_read():
+        pc = repo._pack_collection
+        pc.ensure_loaded()
+        for nm in ("revision_index", "inventory_index", "text_index", "signature_index"):
+            ci = getattr(pc, nm).combined_index
+            extra = ci.key_count() - len({e[1] for e in ci.iter_all_entries()})
+            if extra:
+                out.append("%s+%d" % (nm.split("_")[0], extra))
+    return out
+
+
 def text_shas(repo, n):
     """{(file idx, rev idx): sha1 of the full text} of the texts the repository holds itself"""
     import hashlib
@@ -526,6 +542,8 @@ def coq_ops(ops):
     for o in ops:
         if o[0] == "commit":
             out.append("OCommit %d" % o[1])
+        elif o[0] == "fetchall":
+            out.append("OFetchAll")
         else:
             out.append("OFetch %s %d" % (coq_bool(o[2]), o[1]))
     return "[" + "; ".join(out) + "]"
@@ -586,6 +604,16 @@ def _do_fetch(case, tpath, r, fg, entry):
     if entry == "fetch":
         tgt = open_repo(tpath, bool(case.get("fb")), case["tgt_via"])
         tgt.fetch(_r.Repository.open(src_url), revision_id=rid(r), find_ghosts=fg)
+    elif entry == "all":
+        tgt = open_repo(tpath, bool(case.get("fb")), case["tgt_via"])
+        tgt.fetch(_r.Repository.open(src_url), find_ghosts=fg)
+    elif entry == "sprout":
+        # ControlDir.sprout into a location that does not exist yet (the empty target made by run_case is removed)
+        from breezy import controldir
+        shutil.rmtree(tpath)
+        set_tip(_b.Branch.open(source(u, case["src_fmt"])[1]), u["g"], r)
+        controldir.ControlDir.open(src_url).sprout(url_of(tpath, case["tgt_via"]), revision_id=rid(r),
+                                                   create_tree_if_local=False)
     else:
         set_tip(_b.Branch.open(source(u, case["src_fmt"])[1]), u["g"], r)
         sb = _b.Branch.open(src_url)
@@ -651,7 +679,7 @@ def _readable_problems(tpath, stacked, u, fmt, local_revs):
     return bad
 
 
-FACTS = ("testament_bad", "textparents_bad", "text_bad", "sig_bad", "check", "unreadable")
+FACTS = ("testament_bad", "textparents_bad", "text_bad", "sig_bad", "check", "unreadable", "dup")
 
 
 def content_facts(tpath, stacked, u, tfmt, n, after, src_t, src_tp, src_sha, src_chk, committed=()):
@@ -668,6 +696,7 @@ def content_facts(tpath, stacked, u, tfmt, n, after, src_t, src_tp, src_sha, src
         sigs = {idx(k[0]): b"".join(repo.signatures.get_record_stream([k], "unordered", True).__next__().get_bytes_as("chunked"))
                 for k in repo.signatures.without_fallbacks().keys()}
     so["sig_bad"] = sorted(r for r in local if r not in committed and sigs.get(r) != (sig_text(r) if r % 4 == 1 else None))
+    so["dup"] = stored_twice(open_repo(tpath, stacked))
     chk = check_problems(open_repo(tpath, stacked), set(u["late"]))
     so["check"] = [it for it in chk if it not in src_chk]     # problems the source does not have itself
     so["unreadable"] = _readable_problems(tpath, stacked, u, tfmt, local)
@@ -751,7 +780,8 @@ def model_term(case):
     p1g, late = phase1_graph(u)
     zf = sorted(anc_present(u["g"], late, case.get("fb") or []))
     zt = sorted(anc_present(u["g"], late, case.get("seed") or []))
-    ops = [("commit", o[1]) if o[0] == "commit" else ("fetch", o[1], o[2]) for o in case["ops"]]
+    ops = [("commit", o[1]) if o[0] == "commit" else ("fetchall",) if o[3] == "all" else ("fetch", o[1], o[2])
+           for o in case["ops"]]
     return "run_case %s %s %s %s %s %s %s %s" % (
         g, iv, coq_cfg(case["src_fmt"], case["tgt_fmt"], case.get("fb")),
         "DRevs" if revs_only(case) else "(DAll %s)" % coq_bool(case["tgt_fmt"] != "2a"),
